@@ -70,6 +70,7 @@ CHECKS = {
             {"pkg": "core", "run": "^TestC02WriteQueue$", "quick": 200, "thorough": 8000, "shards_thorough": 4},
             {"pkg": "core", "run": "^TestC02SharedChannel$", "quick": 300, "thorough": 15000, "shards_thorough": 4},
             {"pkg": "core", "run": "^TestC02SmallPool$", "quick": 300, "thorough": 15000, "shards_thorough": 4},
+            {"pkg": "core", "run": "^TestC02Oversize$", "quick": 600, "thorough": 30000, "shards_thorough": 4},
             {"pkg": "core", "run": "^TestC02HTTPReplies$", "quick": 400, "thorough": 20000, "shards_thorough": 4},
             {"pkg": "core", "run": "^TestC02WebsocketReplies$", "quick": 300, "thorough": 10000, "shards_thorough": 4},
             {"pkg": "core", "run": "^TestC02CutSweep$", "quick": 1, "thorough": 1, "rapid": False},
@@ -168,6 +169,7 @@ CHECKS = {
             {"pkg": "core", "run": "^TestC08PeerCloseManySessions$", "quick": 300, "thorough": 10000, "shards_thorough": 4},
             {"pkg": "core", "run": "^TestC08ProcessShutdown$", "quick": 300, "thorough": 10000, "shards_thorough": 4},
             {"pkg": "core", "run": "^TestC08GracefulClose$", "quick": 1000, "thorough": 40000, "shards_thorough": 8},
+            {"pkg": "core", "run": "^TestC08SessionAge$", "quick": 40, "thorough": 1200, "shards_thorough": 8},
         ],
     },
     "C15": {
@@ -228,6 +230,7 @@ CHECKS = {
             {"pkg": "racew", "race": True, "run": "^TestC14Codecs$", "quick": 300, "thorough": 20000, "shards_thorough": 4},
             {"pkg": "racew", "race": True, "run": "^TestC14Overloader$", "quick": 60, "thorough": 3000, "shards_thorough": 4},
             {"pkg": "racew", "race": True, "run": "^TestC14Completion$", "quick": 400, "thorough": 20000, "shards_thorough": 4},
+            {"pkg": "racew", "race": True, "run": "^TestC14Establish$", "quick": 300, "thorough": 8000, "shards_thorough": 4},
             {"pkg": "racew", "race": True, "run": "^TestC14Pairs$", "quick": 1, "thorough": 1, "rapid": False, "only": "thorough", "env": {"VERIF_C14_ROUNDS": "30000"}},
             {"pkg": "racew", "race": True, "run": "^TestC14Programs$", "quick": 40, "thorough": 200, "shards_thorough": 4, "env": {"VERIF_C14_LOG": "info"}, "timeout_quick": 900, "timeout_thorough": 7200},
         ],
